@@ -128,7 +128,7 @@ func runC07(c *core.Ctx, o Options) {
 								okKinds = false
 							}
 						}
-						parent := r.Fn.Parent()
+						parent := spawnerOf(r)
 						if okKinds && parent == startFn && startFn != nil {
 							a.good++
 							a.ob.Fact("G3: timer goroutine spawned by start sends %s; start is reached only after an approved logon (G2)", kinds)
@@ -264,7 +264,7 @@ func runC07(c *core.Ctx, o Options) {
 		if r.Cat != "goroutine" {
 			continue
 		}
-		parent := r.Fn.Parent()
+		parent := spawnerOf(r)
 		hasSend := false
 		for _, t := range s.tr.Traces(r.Fn, s.m.AllStates) {
 			if len(sends(t)) > 0 {
@@ -294,4 +294,12 @@ func nameOf(fn *ssa.Function) string {
 		return "?"
 	}
 	return fn.Name()
+}
+
+// spawnerOf is the function that contains the go statement of a goroutine root (for a literal this is its enclosing function).
+func spawnerOf(r root) *ssa.Function {
+	if r.Site != nil {
+		return r.Site.Parent()
+	}
+	return r.Fn.Parent()
 }
